@@ -263,6 +263,7 @@ func (m c16) schemaCase(c *Ctx, s *SchemaSpec, r *RNG) {
 			expect[entry{x, y}] = 0
 		}
 	}
+	literal := false
 	build := func(order []int, rr *RNG) *jsonapi.Schema {
 		sc := &jsonapi.Schema{}
 		for _, ti := range order {
@@ -273,6 +274,10 @@ func (m c16) schemaCase(c *Ctx, s *SchemaSpec, r *RNG) {
 				if err := typ.AddRel(jsonapi.Rel{FromType: t.Name, FromName: rel.Name, ToOne: rel.ToOne, ToType: rel.ToType, ToName: rel.ToName, FromOne: rel.FromOne}); err != nil {
 					panic("harness: " + err.Error())
 				}
+			}
+			if literal {
+				sc.Types = append(sc.Types, typ) // assembled as a literal / by appending: AddType never sees the type
+				continue
 			}
 			if err := sc.AddType(typ); err != nil {
 				panic("harness: " + err.Error())
@@ -357,6 +362,10 @@ func (m c16) schemaCase(c *Ctx, s *SchemaSpec, r *RNG) {
 				sc = buildStepwise(order, r)
 				c.Count("schemas_built_stepwise")
 			} else {
+				literal = o%4 == 2
+				if literal {
+					c.Count("schemas_built_as_literals")
+				}
 				sc = build(order, r)
 			}
 			errs = sc.Check()
